@@ -58,6 +58,10 @@ CHECKS = {
          "The same 671k histories x 128 configurations as C08; after every step the sink's behaviour is compared with a reference model driven by the same virtual clock: rotation iff bytes-since-open >= MaxBytes or age > MaxDuration, exported counters, strictly increasing timestamps inside the call's clock window, plain active name under TimestampOnlyOnRotate, file and directory modes, at most MaxFiles newest rotated files right after a rotation, nothing else ever removed.",
          "The virtual clock (instrumented time.Now/Since) makes every time condition certain.",
          "DESIGN.md §3 C15"),
+ "C13": ("bounded-exhaustive enumeration of format tables and writer behaviours, plus stateless model checking (all interleavings and select-arm choices) of concurrent writer.Sink / FileSink / ChannelSink scenarios under the race detector",
+         "All 8 format tables x 4 configured formats x writer behaviours / FileSink special paths are decided on the real sinks (success iff the configured bytes exist and the write succeeds; exactly one write of exactly those bytes). Concurrent Process calls on one writer.Sink are explored over all interleavings with a scheduling point inside the underlying Write (never two calls inside at once). ChannelSink is explored over all interleavings of Process, consumer, cancel and timer threads: success iff the very event reached the channel once, errors only once the timeout fired or the context was done, never blocked forever.",
+         "Timers are modelled (virtual clock, fired by a harness thread); FileSink write errors cannot be injected and are not covered.",
+         "DESIGN.md §3 C13"),
 }
 
 NOT_YET = "check not built yet in this session (work in progress; see DESIGN.md for the plan)"
